@@ -157,8 +157,15 @@ def run(k, n, threads, name=None, reverse=False):
         path = f"{w}/repo/src/{m['file']}"
         orig = open(path).read()
         lines = orig.split("\n")
-        assert lines[m["line"] - 1] == m["old"], (m, lines[m["line"] - 1])
-        lines[m["line"] - 1] = m["new"]
+        ln = m["line"] - 1
+        if lines[ln] != m["old"]:
+            # the file changed since `gen` (a repository fix): look for the same line nearby
+            near = [k for k in range(max(0, ln - 12), min(len(lines), ln + 13)) if lines[k] == m["old"]]
+            if len(near) != 1:
+                print(k, m["id"], "line moved, skipped", flush=True)
+                continue
+            ln = near[0]
+        lines[ln] = m["new"]
         open(path, "w").write("\n".join(lines))
         t0 = time.time()
         order = FILES[m["file"]][1] + [c for c in ALL if c not in FILES[m["file"]][1]]
